@@ -116,6 +116,13 @@ CLAIMS["C06"] = (
     "DESIGN.md §3 C06",
 )
 
+CLAIMS["C01"] = (
+    "escape-table extraction from byte switches (AST + constants) with inverse/coverage checks; backward string-origin analysis over SSA (every output write of the TSV writer, every record/header store of the TSV reader); trigger-set extraction of the needs-quoting predicates; path enumeration of the quoted-field writer's cases; reachability from reader constructors (replacement inverses, built-in map iteration)",
+    "Decides the table-agreement clause that round-tripping rests on: TSV encode/decode tables are inverse, cover exactly the IANA set and work byte-wise, and every key/value written and every header/data cell read passes through them; CSV and DKVPX needs-quoting predicates cover every byte the reader treats as structure, quote doubling is matched, no quoted special byte is dropped and the reader rewrites nothing inside quotes; the JSON string escape table covers quote, backslash and all control bytes with the RFC 8259 pairs and a four-hex-digit \\u form, for keys and values; the PPRINT empty-value token agrees; every constant replacement a writer applies has its inverse in the reader; no reader builds records through a Go map. It does not decide round-trip equality on data, widths/padding, ragged handling, BOM/CR-LF autodetection, or what an external RFC reader accepts.",
+    "Trusts go/types constant folding, go/ssa, encoding/json and yaml.v3 for JSON/YAML decoding, and the frozen standard sets (IANA TSV escapes, RFC 4180 structure bytes, RFC 8259 escape pairs). Six deviations are known findings (CR dropped under --ors crlf, CR LF inside quotes read as LF, markdown pipe escape without inverse, YAML key order x3); two defects were fixed (TSV header cells not decoded, TSV writer replacing non-UTF-8 bytes).",
+    "DESIGN.md §3 C01",
+)
+
 NOT_APPLICABLE = {
     "C13": "Join pairing, ordering and unpaired accounting are relational identities over run-time key values and bucket contents; no clause is a shape fact visible to static analysis (the shared protocol facts are reported under C04/C10/C17).",
 }
